@@ -15,9 +15,9 @@
    No query, no fragment: such owners are outside the property.
    READING (DESIGN Appendix A): names are compared ignoring ASCII case; "last path segment" is the last segment
    of the DECODED path (URL.Path), so "%2F" separates segments - that is what url.Parse hands to the code. *)
-From AP.Model Require Import Prelude Bytes Url IriEq Vocab Pred CollIri.
+From AP.Model Require Import Prelude Bytes Url IriEq IriNf Vocab Pred CollIri Utf8 FoldTab Fold UrlU IriEqU CollIriU.
 From AP.Gen Require Import TypeLists.
-From AP.Proofs Require Import NlvP IriEqP CollIriP.
+From AP.Proofs Require Import NlvP IriEqP CollIriP Utf8P FoldP UrlUP IriGenUP IriUP CollIriUP.
 
 (* table condition: the generated list is the eight names of the property *)
 Theorem C15_names : forall c, In c tl_ActivityPubCollections <->
@@ -117,6 +117,101 @@ Theorem C15_addto_then_helper : forall k fs c f,
   exists x', add_to c (IObj true k fs) = Some (irif (get_str F_ID fs) c, true, x')
              /\ coll_iri c x' = Some (irif (get_str F_ID fs) c).
 Proof. exact add_to_then_helper. Qed.
+
+(* ================================================================ the WIDE owner grammar ================================
+   The theorems above carve out escapes decoding to bytes >= 0x80 and have no raw byte >= 0x80, because their model of
+   strings.EqualFold is ASCII.  Below the same code runs over the wide models of the libraries: Model/UrlU.v (net/url of
+   go1.23 on all byte strings but userinfo / IP literals), Model/Fold.v (strings.EqualFold with Unicode simple case
+   folding: U+212A KELVIN SIGN ~ "k", U+017F ~ "s", any invalid byte ~ U+FFFD), Model/CollIriU.v (coll_split_u,
+   of_actor_u, valid_collection_iri_u: the code of Model/CollIri.v over them), Model/IriEqU.iri_equ (IRI.Equals).
+   Compared with the real code on every run: Cases_C15_usplit, Cases_C15_ustr, Cases_C15_ueq, Cases_C15_ulib.
+
+   Owner grammar owner_ok_u sch h r (owner = sch ++ "://" ++ h ++ r):
+     sch, h  as above (hosts of the plain grammar, ports: yes)
+     r       raw path: empty or starting with "/", ANY byte but control bytes (< 0x20, 0x7F), "?" and "#": bytes >= 0x80
+             (valid UTF-8 or not), spaces, quotes, brackets ...; every "%" followed by two hex digits, WHATEVER the
+             escape decodes to.  No carve-out.
+   READING: names are compared as the code compares them - strings.EqualFold, Unicode simple folding - so
+   "li\u212Aed" (KELVIN SIGN) counts as "liked" (C15_fold_name_finding). *)
+
+Theorem C15_owner_wide : forall sch h r, owner_ok sch h r = true -> owner_ok_u sch h r = true.
+Proof. exact owner_ok_wide. Qed.
+
+Theorem C15_owner_parses_u : forall sch h r, owner_ok_u sch h r = true ->
+  exists d, pct_decode r = Some d /\ url_parse_u (owner_str sch h r) = UUrl (owner_url sch h r d).
+Proof. exact c15u_owner_parses. Qed.
+
+Theorem C15_equiv_refl_u : forall s cs, iri_equals_u s s cs = Some true.
+Proof. exact iri_equals_u_refl. Qed.
+Theorem C15_equiv_sym_u : forall a b cs, iri_equals_u a b cs = iri_equals_u b a cs.
+Proof. exact iri_equals_u_sym. Qed.
+
+Theorem C15_split_join_u : forall sch h r c,
+  owner_ok_u sch h r = true -> In c tl_ActivityPubCollections ->
+  exists o', split_u (irif (owner_str sch h r) c) = Some (o', c)
+             /\ iri_equ o' (owner_str sch h r) true = true /\ iri_equ (owner_str sch h r) o' true = true.
+Proof. exact c15u_split_join. Qed.
+
+Theorem C15_of_actor_u : forall sch h r c,
+  owner_ok_u sch h r = true -> In c tl_ActivityPubCollections ->
+  exists o', of_actor_u c (irif (owner_str sch h r) c) = Ok o' /\ iri_equ o' (owner_str sch h r) true = true.
+Proof. exact c15u_of_actor. Qed.
+
+Theorem C15_valid_u : forall sch h r c,
+  owner_ok_u sch h r = true -> In c tl_ActivityPubCollections ->
+  valid_collection_iri_u (irif (owner_str sch h r) c) = Some true.
+Proof. exact c15u_valid. Qed.
+
+(* an owner is recognised exactly when the last segment of its decoded path is one of the names under EqualFold *)
+Theorem C15_valid_owner_char_u : forall sch h r d,
+  owner_ok_u sch h r = true -> pct_decode r = Some d ->
+  valid_collection_iri_u (owner_str sch h r) = Some (contains_u tl_ActivityPubCollections (snd (path_split d))).
+Proof. exact valid_owner_u. Qed.
+
+Theorem C15_not_valid_u : forall sch h r d,
+  owner_ok_u sch h r = true -> pct_decode r = Some d ->
+  contains_u tl_ActivityPubCollections (snd (path_split d)) = false ->
+  valid_collection_iri_u (owner_str sch h r) = Some false.
+Proof. exact c15u_not_valid. Qed.
+
+Theorem C15_built_is_irif_u : forall sch h r c,
+  owner_ok_u sch h r = true -> In c tl_ActivityPubCollections ->
+  let o2 := owner_str sch h (trim_right_byte slash r) in
+  trim_right_byte slash (owner_str sch h r) ++ slash :: c = irif o2 c
+  /\ owner_ok_u sch h (trim_right_byte slash r) = true
+  /\ iri_equ o2 (owner_str sch h r) true = true.
+Proof. exact built_is_irif_u. Qed.
+
+(* FINDING (class unicode-fold-collection-name): the property says an owner whose last path segment is not one of the
+   eight names is not recognised; the code compares with strings.EqualFold, so a segment spelled with U+212A KELVIN SIGN
+   or U+017F LATIN SMALL LETTER LONG S is recognised, and Split hands that spelling out as the CollectionPath.  The ASCII
+   model of the theorems above could not say so (it excluded such owners).  Replayed on the real code by the harness. *)
+Theorem C15_fold_name_finding :
+  owner_ok_u (B "https") (B "example.com") (B "/users/li%E2%84%AAed") = true /\
+  owner_ok (B "https") (B "example.com") (B "/users/li%E2%84%AAed") = false /\
+  valid_collection_iri_u (B "https://example.com/users/li%E2%84%AAed") = Some true /\
+  split_u (B "https://example.com/users/li%E2%84%AAed") = Some (B "https://example.com/users", hx "6c69e284aa6564").
+Proof. exact kelvin_owner. Qed.
+
+Example C15_owner_examples_u :
+  owner_ok_u (B "https") (B "example.com") [] = true /\
+  owner_ok_u (B "https") (B "example.com:8443") (hx "2f75736572732f6ac3bc7267656e") = true /\     (* /users/jürgen, raw UTF-8 *)
+  owner_ok_u (B "https") (B "example.com") (B "/users/j%C3%BCrgen/") = true /\
+  owner_ok_u (B "https") (B "example.com") (B "/li%E2%84%AAed") = true /\
+  owner_ok_u (B "HTTP") (B "Sub.Example.ORG") (hx "2fff2f2566662f6120622f227122") = true /\            (* /\xff/%ff/a b/"q" *)
+  owner_ok_u (B "https") (B "example.com") (B "/a?x=1") = false /\
+  owner_ok_u (B "https") (B "example.com") (B "/a#f") = false /\
+  owner_ok_u (B "https") (B "example.com") (B "/a%zz") = false.
+Proof. repeat split; vm_compute; reflexivity. Qed.
+
+Example C15_split_join_example_u :
+  split_u (irif (hx "48545450533a2f2f6578616d706c652e636f6d3a383434332f75736572732f6ac3bc7267656e2f2f") (B "followers"))   (* HTTPS://example.com:8443/users/jürgen// *)
+    = Some (B "https://example.com:8443/users/j%C3%BCrgen", B "followers") /\
+  iri_equ (B "https://example.com:8443/users/j%C3%BCrgen") (hx "48545450533a2f2f6578616d706c652e636f6d3a383434332f75736572732f6ac3bc7267656e2f2f") true = true /\
+  of_actor_u (B "inbox") (irif (B "https://example.com/%E2%84%AA/") (B "inbox")) = Ok (B "https://example.com/%E2%84%AA") /\
+  valid_collection_iri_u (hx "68747470733a2f2f6578616d706c652e636f6d2f75736572732f6ac3bc7267656e") = Some false /\
+  valid_collection_iri_u (B "https://example.com/users/like%C5%BF") = Some true.
+Proof. repeat split; vm_compute; reflexivity. Qed.
 
 (* ---- the pinned tree: an actor's explicitly set inbox was ignored (two fix: commits) ---- *)
 Definition c15_actor (ty : string) : item :=
